@@ -219,6 +219,7 @@ def _ask(features):
         C("ask.frame", "C12", AMB_BUT_GRAPH if "deadlock-detection" in features else AMB),
     ])
     d["requires"] = ASK_PRE
+    d["panics"] = ("except", "format_cycle_path")   # only the deliberate deadlock panic
     if "deadlock-detection" in features:
         # guards are recognised by what they are initialised from, not by their names
         d["raii"] = {"init:.lock(": "drop", "init:WaitForGuard(": "vx_drop_opt_guard"}
@@ -298,6 +299,7 @@ def _sub(clauses, **kw):
 
 
 SPECS["lib.rs::spawn_with_mailbox_capacity"] = dict(
+    panics="allow",   # the documented rejection of capacity 0
     requires=[C("spawn.pre.unlocked", "C12", "!old(w).lock_held()")],
     ensures=_sub(SPAWN_POST, cap_used="mailbox_capacity", LOG0="old(w).log()"))
 SPECS["lib.rs::spawn"] = dict(
@@ -548,7 +550,7 @@ EXTRA_LABELS = {
     "panic_site.wait_for_lock_not_held": "C12",
     "mpsc.send.message_keeps_this_mailbox_alive": "C01 C07",
     "timeout.inner_log_extends": "C10",
-    "drop_body.never_panics": "C12 C15",
+    "framework.no_unexpected_panic": "C12 C15 C03 C01",
     "handle_message.pre.unlocked@dyn": "C12",
     "spawn.lifecycle_gets_refs_mailbox": "C01 C02 C09",
     "spawn.lifecycle_gets_refs_control": "C06",
